@@ -28,6 +28,8 @@ type c18Op struct {
 	Bytes  []byte `json:"bytes,omitempty"`  // mutate: new content
 	Delete bool   `json:"delete,omitempty"` // mutate: remove the file
 	FlagFirst bool `json:"flag_first,omitempty"` // `mockery --config X init P` instead of `mockery init --config X P`
+	Cwd       string `json:"cwd,omitempty"`        // directory (relative to the root) the command runs in
+	Obstacle  string `json:"obstacle,omitempty"`   // mutate: dir | symlink | dangling-symlink at the target
 }
 
 type c18Case struct {
@@ -39,6 +41,7 @@ type c18Case struct {
 }
 
 var c18Weird = []string{
+	"Example.com/W/UPPER",
 	"pkg: v2", "pkg #tools", "*star", "&anchor/pkg", "!tag/pkg", "{flow}", "[seq]", "- dash", "yes", "no", "null", "~", "1e3", "0x1F", "012",
 	"true", "trailing space ", " leading", "quo\"te", "single'quote", "back\\slash", "ünï/çödé/包", "a|b", "a.b.c/d", "key: {x: [1,2]}",
 	"multi\nline", "tab\there", "@at", "`tick", "%percent", ">fold", "|lit", "?query", ",comma", "#hash", "", "example.com/w/…",
@@ -73,6 +76,19 @@ func c18Gen(r *core.Rng, seed uint64) c18Case {
 	case 4:
 		cs.Ops = append(cs.Ops, c18Op{Kind: "mutate", Config: target, Bytes: []byte{0x00, 0xff, 0xfe, 'b', 'i', 'n', 0x0a, 0x80}})
 	}
+	if r.Chance(1, 6) {
+		cs.Ops = append(cs.Ops, c18Op{Kind: "mutate", Config: target, Obstacle: core.Pick(r, []string{"dir", "symlink", "dangling-symlink"})})
+	}
+	// some histories run from a sub-directory: a relative target is then relative to it
+	cwd := ""
+	if r.Chance(1, 4) && !strings.HasPrefix(target, "missing-dir") {
+		cwd = pkgs[0].Dir
+	}
+	defer func() {
+		for i := range cs.Ops {
+			cs.Ops[i].Cwd = cwd
+		}
+	}()
 	n := r.Range(2, 5)
 	for i := 0; i < n; i++ {
 		switch r.Intn(8) {
@@ -98,10 +114,14 @@ func c18Gen(r *core.Rng, seed uint64) c18Case {
 }
 
 func c18ConfigRel(op c18Op) string {
-	if op.Config == "" {
-		return ".mockery.yml"
+	cfg := op.Config
+	if cfg == "" {
+		cfg = ".mockery.yml"
 	}
-	return filepath.Clean(strings.TrimPrefix(op.Config, world.RootPlaceholder+"/"))
+	if strings.HasPrefix(cfg, world.RootPlaceholder+"/") {
+		return filepath.Clean(strings.TrimPrefix(cfg, world.RootPlaceholder+"/"))
+	}
+	return filepath.Clean(filepath.Join(op.Cwd, cfg)) // a relative target is relative to the working directory
 }
 
 func yamlQuote(s string) string { b, _ := yaml.Marshal(s); return strings.TrimSpace(string(b)) }
@@ -127,7 +147,7 @@ func evalC18(c *core.Ctx, cs c18Case, id string) Outcome {
 		return out
 	}
 	run := func(op c18Op, args ...string) world.StepResult {
-		st := world.Step{Args: args, Plan: world.Plan(core.Pick(r, []string{"asc", "desc", "random"}), r.Uint64(), 0, 1995+r.Intn(60), 1+r.Intn(30000))}
+		st := world.Step{Args: args, Cwd: op.Cwd, Plan: world.Plan(core.Pick(r, []string{"asc", "desc", "random"}), r.Uint64(), 0, 1995+r.Intn(60), 1+r.Intn(30000))}
 		out.Runs++
 		res := world.Run(c.Bin, root, base, st, 90*time.Second)
 		if v := res.OrderVector(); v != "" {
@@ -154,8 +174,21 @@ func evalC18(c *core.Ctx, cs c18Case, id string) Outcome {
 		switch op.Kind {
 		case "mutate":
 			if op.Delete {
-				os.Remove(full)
+				os.RemoveAll(full)
+			} else if op.Obstacle != "" {
+				os.RemoveAll(full)
+				os.MkdirAll(filepath.Dir(full), 0o755)
+				switch op.Obstacle {
+				case "dir":
+					os.MkdirAll(filepath.Join(full, "inner"), 0o755)
+				case "symlink":
+					os.WriteFile(filepath.Join(root, "docs", "link-target.yml"), []byte("packages: {}\n"), 0o644)
+					os.Symlink(filepath.Join(root, "docs", "link-target.yml"), full)
+				case "dangling-symlink":
+					os.Symlink(filepath.Join(root, "docs", "does-not-exist.yml"), full)
+				}
 			} else {
+				os.RemoveAll(full)
 				os.MkdirAll(filepath.Dir(full), 0o755)
 				if err := os.WriteFile(full, op.Bytes, 0o644); err != nil {
 					out.Trouble = err.Error()
